@@ -1067,4 +1067,226 @@ theorem initialization_emitInv (ea ma : List Nat) (hea : ∀ x, x ∈ ea → x <
   rw [hc1]
   exact hc2
 
+/-! ## 6. Fixed two-qubit operations are never removed -/
+
+theorem foldl_insertEdge_mem (k : Nat) (es : List Edge) (c0 : Circuit) (r : Reg) (n : Nat) (h : n ∈ c0.wire r) :
+    n ∈ (es.foldl (Circuit.insertEdge k) c0).wire r := by
+  induction es generalizing c0 with
+  | nil => exact h
+  | cons e es ih =>
+    simp only [List.foldl_cons]
+    apply ih
+    simp only [Circuit.insertEdge, Circuit.setWire]
+    split
+    · rename_i hr
+      subst hr
+      exact (mem_ins (w := c0.wire e.r) (pos := e.pos) (k := k)).mpr (Or.inr h)
+    · exact h
+
+theorem insertAt_mem_of_mem (c : Circuit) (op : Op) (es : List Edge) (r : Reg) (n : Nat) (h : n ∈ c.wire r) :
+    n ∈ (c.insertAt op es).wire r := by
+  unfold Circuit.insertAt
+  exact foldl_insertEdge_mem _ es _ r n h
+
+/-- what a move keeps of a node -/
+def Keeps (c c' : Circuit) (n : Nat) (op : Op) : Prop := c'.node n = some op ∧ ∀ r, n ∈ c.wire r → n ∈ c'.wire r
+
+theorem keeps_insertAt (c : Circuit) (op' : Op) (es : List Edge) (hwf : c.WF) (n : Nat) (op : Op)
+    (h : c.node n = some op) : Keeps c (c.insertAt op' es) n op := by
+  have := (hwf.bound n op h).2
+  exact ⟨by rw [insertAt_node, if_neg (by omega)]; exact h, fun r hr => insertAt_mem_of_mem c op' es r n hr⟩
+
+theorem keeps_stepReplace (c : Circuit) (t : RegType) (ch : Choice) (g : Nat) (c' : Circuit)
+    (h : c.stepReplace t ch g = some c') (n : Nat) (op : Op) (hn : c.node n = some op)
+    (hk : op.kind.isTwoQubit = true) : Keeps c c' n op := by
+  unfold Circuit.stepReplace at h
+  split at h
+  · split at h
+    · cases h; exact ⟨hn, fun _ hr => hr⟩
+    · cases h
+  · cases ch with
+    | node n0 =>
+      simp only at h
+      split at h
+      · rename_i hcond
+        obtain ⟨gs, r, cr, fx, hnode, _⟩ := mem_replaceCands hcond.1
+        rw [hnode] at h
+        simp only [Circuit.replaceOpE, hnode] at h
+        split at h
+        · cases h
+        · simp only [exceptToOption, Option.some.injEq] at h
+          subst h
+          have hne : n ≠ n0 := by
+            rintro rfl
+            rw [hnode] at hn
+            cases hn
+            cases hk
+          exact ⟨by show (if n = n0 then _ else c.node n) = _; rw [if_neg hne]; exact hn, fun _ hr => hr⟩
+      · cases h
+    | none => simp at h
+    | edge e => simp at h
+    | pair e1 e2 => simp at h
+
+theorem keeps_stepPair (c : Circuit) (kind : Kind) (cr : List Nat) (e1 e2 : Edge) (c' : Circuit) (hwf : c.WF)
+    (h : c.stepPair kind cr e1 e2 = some c') (n : Nat) (op : Op) (hn : c.node n = some op) : Keeps c c' n op := by
+  unfold Circuit.stepPair at h
+  split at h
+  · have := insertAtE_two c _ e1 e2 c' rfl h
+    subst this
+    exact keeps_insertAt c _ _ hwf n op hn
+  · cases h
+
+/-- a move never removes (or changes, or takes off a wire) a `Fixed` two-qubit operation -/
+theorem step_keeps_fixed (c : Circuit) (m : Move) (c' : Circuit) (hwf : c.WF) (h : c.step m = some c')
+    (n : Nat) (op : Op) (hn : c.node n = some op) (hfix : op.fixed = true) (hk : op.kind.isTwoQubit = true) :
+    Keeps c c' n op := by
+  rcases m with ⟨t, ch, g⟩
+  cases t <;> simp only [Circuit.step] at h
+  · split at h
+    · exact keeps_stepReplace c _ ch g c' h n op hn hk
+    · cases ch with
+      | edge e =>
+        simp only at h
+        split at h
+        · have := insertAtE_one c _ e c' rfl h
+          subst this
+          exact keeps_insertAt c _ _ hwf n op hn
+        · cases h
+      | none => simp at h
+      | node n => simp at h
+      | pair e1 e2 => simp at h
+  · split at h
+    · exact keeps_stepReplace c _ ch g c' h n op hn hk
+    · cases ch with
+      | edge e =>
+        simp only at h
+        split at h
+        · have := insertAtE_one c _ e c' rfl h
+          subst this
+          exact keeps_insertAt c _ _ hwf n op hn
+        · cases h
+      | none => simp at h
+      | node n => simp at h
+      | pair e1 e2 => simp at h
+  · exact keeps_stepReplace c _ ch g c' h n op hn hk
+  · exact keeps_stepReplace c _ ch g c' h n op hn hk
+  · cases ch with
+    | none =>
+      simp only at h
+      split at h
+      · cases h; exact ⟨hn, fun _ hr => hr⟩
+      · cases h
+    | pair e1 e2 =>
+      simp only at h
+      split at h
+      · exact keeps_stepPair c _ _ e1 e2 c' hwf h n op hn
+      · cases h
+    | node n => simp at h
+    | edge e => simp at h
+  · split at h
+    · split at h
+      · cases h; exact ⟨hn, fun _ hr => hr⟩
+      · cases h
+    · cases ch with
+      | node n0 =>
+        simp only at h
+        split at h
+        · rename_i hcond
+          cases h
+          obtain ⟨op0, hnode0, hnf⟩ := mem_removeCands hcond
+          have hne : n ≠ n0 := by
+            rintro rfl
+            rw [hnode0] at hn
+            cases hn
+            rw [hfix] at hnf
+            cases hnf
+          exact ⟨by rw [removeOp_node, if_neg hne]; exact hn,
+                 fun r hr => (mem_removeOp_wire c n0 n r).mpr ⟨hr, hne⟩⟩
+        · cases h
+      | none => simp at h
+      | edge e => simp at h
+      | pair e1 e2 => simp at h
+  · cases ch with
+    | none =>
+      simp only at h
+      split at h
+      · cases h; exact ⟨hn, fun _ hr => hr⟩
+      · cases h
+    | pair e1 e2 =>
+      simp only at h
+      split at h
+      · exact keeps_stepPair c _ _ e1 e2 c' hwf h n op hn
+      · cases h
+    | node n => simp at h
+    | edge e => simp at h
+
+theorem run_keeps_fixed (c : Circuit) (ms : List Move) (c' : Circuit) (hinv : c.EmitInv) (h : c.run ms = some c')
+    (n : Nat) (op : Op) (hn : c.node n = some op) (hfix : op.fixed = true) (hk : op.kind.isTwoQubit = true) :
+    Keeps c c' n op := by
+  induction ms generalizing c with
+  | nil => simp only [Circuit.run, Option.some.injEq] at h; subst h; exact ⟨hn, fun _ hr => hr⟩
+  | cons m ms ih =>
+    simp only [Circuit.run] at h
+    cases hs : c.step m with
+    | none => rw [hs] at h; cases h
+    | some c1 =>
+      rw [hs] at h
+      have k1 := step_keeps_fixed c m c1 hinv.1 hs n op hn hfix hk
+      have k2 := ih c1 (step_preserves c m c1 hinv hs) h k1.1
+      exact ⟨k2.1, fun r hr => k2.2 r (k1.2 r hr)⟩
+
+/-! ## 7. the executable checker is sound -/
+
+theorem isEmissionB_sound (c : Circuit) (j n : Nat) (h : c.isEmissionB j n = true) : c.isEmission j n := by
+  unfold Circuit.isEmissionB at h
+  split at h
+  · rename_i i j' hnode
+    simp only [decide_eq_true_eq] at h
+    subst h
+    exact ⟨i, hnode⟩
+  · cases h
+
+theorem laterOkB_sound (c : Circuit) (j n : Nat) (h : c.laterOkB j n = true) : c.laterOk j n := by
+  unfold Circuit.laterOkB at h
+  split at h
+  · rename_i op hnode
+    refine ⟨op, hnode, ?_⟩
+    simp only [Bool.or_eq_true, Bool.and_eq_true, decide_eq_true_eq] at h
+    rcases h with ⟨h1, h2⟩ | ⟨h1, h2⟩
+    · exact Or.inl ⟨h1, h2⟩
+    · right
+      refine ⟨h1, ?_⟩
+      split at h2
+      · rename_i i r2 hq
+        simp only [decide_eq_true_eq] at h2
+        exact ⟨i, by rw [hq, h2]⟩
+      · cases h2
+  · cases h
+
+theorem mem_nodeIds (c : Circuit) (hwf : c.WF) (n : Nat) (op : Op) (h : c.node n = some op) : n ∈ c.nodeIds := by
+  simp only [Circuit.nodeIds, List.mem_filter, List.mem_range]
+  exact ⟨by have := (hwf.bound n op h).2; omega, by rw [h]; rfl⟩
+
+/-- the check the driver runs on every circuit of the implementation implies the emission constraints -/
+theorem emitCB_sound (c : Circuit) (hwf : c.WF) (h : c.emitCB = true) : c.EmitC := by
+  unfold Circuit.emitCB at h
+  simp only [Bool.and_eq_true, List.all_eq_true, List.mem_range] at h
+  obtain ⟨hA, hB⟩ := h
+  constructor
+  · intro n op hnode r1 r2 hq
+    have := hA n (mem_nodeIds c hwf n op hnode)
+    rw [hnode] at this
+    simp only [hq, Bool.not_eq_true', Bool.and_eq_false_iff, decide_eq_false_iff_not] at this
+    rintro ⟨h1, h2⟩
+    rcases this with h | h
+    · exact h h1
+    · exact h h2
+  · intro j hj
+    have := hB j hj
+    split at this
+    · rename_i h' rest hw
+      simp only [Bool.and_eq_true, List.all_eq_true] at this
+      exact ⟨h', rest, hw, isEmissionB_sound c j h' this.1, fun n hn => laterOkB_sound c j n (this.2 n hn)⟩
+    · cases this
+
 end Graphiq.Wire
